@@ -317,3 +317,4 @@ func VerifC17ShrunkAlphabet() {
 		}
 	}
 }
+
